@@ -13,6 +13,18 @@ CLAIMS = {
    text="Adjacency-built stores x well-formed filters (Hypothesis) on both backends through the REQ path against a reference matcher with a MUST/MAY split; every eligible LMDB index forced through hand-built plans; exhaustive small scope (all stores of <=2/3 events over a 36-event alphabet x all 1727 filters).",
    note="SQLite only (no PostgreSQL); LMDB engine modelled; filters outside the documented domain (no condition, >5 filters) excluded; events on a since/until bound are MAY.",
    tech="property-based testing: model-based oracle (reference NIP-01 matcher), forced-plan differential, bounded-exhaustive enumeration"),
+ "C01": dict(cat="exploration",
+   text="Histories with replacements and deletions x hostile filter lists (every JSON type at every position, SQL/Python metacharacters, NUL, unicode tag names, near-miss values) through subscribe, run_single_query and the websocket handler on both backends: every returned object must be a stored event, field-for-field, that may-match a filter as written; metamorphic statement-skeleton invariance (SQL token skeleton / LMDB predicate AST of a hostile filter equals that of its benign twin).",
+   note="Malformed conditions may be ignored, coerced or rejected (only well-formed conditions constrain the answer); SQLite only; LMDB engine modelled.",
+   tech="property-based testing / grammar fuzzing with a reference matcher oracle and a metamorphic (benign-twin) oracle"),
+ "C11": dict(cat="exploration",
+   text="Metamorphic relations on generated (store, filter) pairs, both backends: constructed non-matching neighbour events (adjacent kinds/ids/pubkeys, prefix/extension tag values, timestamps just outside the window) inserted then removed leave the answer unchanged; strengthening never adds; multi-value answer equals union of single values; permutation/duplication invariant. Adjacency of a neighbour to a matching key is measured in the LMDB keyspace.",
+   note="Events exactly on a since/until bound are excluded from comparisons; no truncating limit; SQLite only; LMDB engine modelled.",
+   tech="property-based testing: metamorphic relations (paired runs)"),
+ "C12": dict(cat="exploration",
+   text="max_limit=7; generated stores with more/equal/fewer matches than limits {0,1,2,6,7,8,1e6,null,absent}, 1-3 filters per REQ, both backends through the REQ path; per-filter count bound (events attributable to one filter only), total bound, no truncation under the limit, recency (no omitted matching event newer than a sent one).",
+   note="Ties in created_at at the cut accepted either way; frame order unconstrained; SQLite only; LMDB engine modelled.",
+   tech="property-based testing with a reference matcher and limit/recency oracle"),
 }
 NA_REASON = "check under construction in this session; will be claimed when it is quiet and sensitive"
 
